@@ -74,3 +74,49 @@ Proof.
   apply sig_length_cases in E. cbn [In] in E |- *.
   repeat (destruct E as [E|E]; [inversion E; subst; tauto|]). destruct E.
 Qed.
+
+(* ---- offline_signature.SigningPublicKeySize / SignatureSize, shape-independently ---- *)
+Definition nz (v : Z) : option Z := if v =? 0 then None else Some v.
+Definition agree_off (t : Z) : bool :=
+  optZ_eqb (nz (off_spk_size t)) (spec_spk_len t) && optZ_eqb (nz (off_sig_size t)) (spec_sig_len t) &&
+  (0 <=? off_spk_size t) && (0 <=? off_sig_size t).
+Lemma off_sizes_16bit_all : forallb agree_off (zrange 0 (Z.to_nat 65536)) = true.
+Proof. vm_compute. reflexivity. Qed.
+Theorem off_sizes_in_range t : 0 <= t <= 65535 ->
+  nz (off_spk_size t) = spec_spk_len t /\ nz (off_sig_size t) = spec_sig_len t /\
+  0 <= off_spk_size t /\ 0 <= off_sig_size t.
+Proof.
+  intros R. pose proof off_sizes_16bit_all as K. rewrite forallb_forall in K.
+  assert (I : In t (zrange 0 (Z.to_nat 65536))) by (apply zrange_in; lia).
+  specialize (K t I). unfold agree_off in K.
+  repeat rewrite Bool.andb_true_iff in K. destruct K as [[[A B] C] D].
+  repeat split; try (apply optZ_eqb_eq; assumption); lia.
+Qed.
+Lemma off_spk_size_out_of_range t : t < 0 \/ t > 65535 -> 0 <= off_spk_size t.
+Proof.
+  (* a negative argument (which the uint16 parameter of the Go function excludes) is analysed by
+     constructor, so that an index computation such as Z.to_nat t evaluates *)
+  intros [L|G]; [destruct t as [|p|p]; try lia|];
+    unfold off_spk_size; cbv -[Z.ltb Z.gtb Z.leb Z.geb Z.eqb Z.lt Z.gt Z.le Z.ge];
+    split_ifs; lia.
+Qed.
+Lemma off_sig_size_out_of_range t : t < 0 \/ t > 65535 -> 0 <= off_sig_size t.
+Proof.
+  (* a negative argument (which the uint16 parameter of the Go function excludes) is analysed by
+     constructor, so that an index computation such as Z.to_nat t evaluates *)
+  intros [L|G]; [destruct t as [|p|p]; try lia|];
+    unfold off_sig_size; cbv -[Z.ltb Z.gtb Z.leb Z.geb Z.eqb Z.lt Z.gt Z.le Z.ge];
+    split_ifs; lia.
+Qed.
+Lemma off_spk_size_nonneg t : 0 <= off_spk_size t.
+Proof.
+  destruct (Z_lt_dec t 0) as [L|L]; [apply off_spk_size_out_of_range; lia|].
+  destruct (Z_gt_dec t 65535) as [G|G]; [apply off_spk_size_out_of_range; lia|].
+  destruct (off_sizes_in_range t) as (_ & _ & P & _); [lia|exact P].
+Qed.
+Lemma off_sig_size_nonneg t : 0 <= off_sig_size t.
+Proof.
+  destruct (Z_lt_dec t 0) as [L|L]; [apply off_sig_size_out_of_range; lia|].
+  destruct (Z_gt_dec t 65535) as [G|G]; [apply off_sig_size_out_of_range; lia|].
+  destruct (off_sizes_in_range t) as (_ & _ & _ & P); [lia|exact P].
+Qed.
